@@ -173,6 +173,20 @@ CHECKS = {
              "processed like the others.",
         note=COMMON_NOTE + "`dedupe` runs with FICLONE emulation so that 'left alone' differs from 'failed anyway'.",
         design="4/C20"),
+    "C15": dict(
+        category="fault_enumeration",
+        technique="read-path fault injection with an LD_PRELOAD interposer (exact path, n-th call) vs the reference partition without the faulted entry",
+        text="Root ignores permission bits, so faults are injected at libc level: a recording run counts, per path, the "
+             "stat / open (extent-query vs hashing, incl. the O_NOATIME retry) / read / opendir / readdir / FIEMAP calls of a "
+             "scenario tree (hard-link sets, classes that leave at the prefix, suffix and content stage, nested directories); "
+             "then one run per (entry, call position, errno in EACCES/EIO/ENOENT) fails exactly that call, under six "
+             "configurations (disk kind pinned ssd/hdd/unknown, ext4/tmpfs, thread pools); thorough adds pairs of faults on two "
+             "files and more scenarios. The run must exit 0 with a complete report equal to the reference partition of the tree "
+             "without the entry (subtree for a directory; entries after a failed readdir are don't-care; a failed extent query "
+             "changes nothing) and a warning must name the entry unless it vanished (ENOENT).",
+        note="Faults are at libc call granularity. Cases whose fault did not fire (the call sequence varies with the schedule for "
+             "hard-linked files) are inconclusive and reported as such. Trusted base as for C03.",
+        design="4/C15"),
 }
 
 NOT_YET = {}
